@@ -602,15 +602,29 @@ def build_driver(ctx):
     out = os.path.join(ctx.work, "driver-" + key)
     if os.path.exists(out):
         return out
-    for f in os.listdir(ctx.work):
-        if f.startswith("driver-"):
-            try: os.remove(os.path.join(ctx.work, f))
-            except OSError: pass
-    rc, o, e = vlib.nelua_build(src, out + ".tmp", cache_dir=os.path.join(ctx.work, "nelua-cache-" + key))
-    if rc != 0 or not os.path.exists(out + ".tmp"):
+    prune_work(ctx)
+    tmp = "%s.tmp%d" % (out, os.getpid())
+    rc, o, e = vlib.nelua_build(src, tmp, cache_dir=os.path.join(ctx.work, "nelua-cache-%s-%d" % (key, os.getpid())))
+    if rc != 0 or not os.path.exists(tmp):
         raise RuntimeError("cannot compile the C14 run-time driver: " + (o + e)[-1500:])
-    os.rename(out + ".tmp", out)
+    os.rename(tmp, out)
     return out
+
+
+def prune_work(ctx, max_age=7200):
+    """drivers and compile caches of other source states (another run may be using them: only remove
+    what has not been touched for two hours)"""
+    import shutil
+    import time
+    now = time.time()
+    for f in os.listdir(ctx.work):
+        if f.startswith(("driver-", "nelua-cache-", "probe-cache-")):
+            p = os.path.join(ctx.work, f)
+            try:
+                if now - os.path.getmtime(p) > max_age:
+                    shutil.rmtree(p) if os.path.isdir(p) else os.remove(p)
+            except OSError:
+                pass
 
 
 def probe_programs(ctx, rng, info, model, viol, nontrivial, dist, reader_witness):
@@ -647,10 +661,10 @@ def probe_programs(ctx, rng, info, model, viol, nontrivial, dist, reader_witness
         if p == 0:
             rows.append([(reader_witness, "witness", 2**160)])
         src = "\n".join("print(%s)" % ", ".join(c[0] for c in row) for row in rows) + "\n"
-        path = os.path.join(ctx.work, "probe%d.nelua" % p)
+        path = os.path.join(ctx.work, "probe%d-%d.nelua" % (p, os.getpid()))
         with open(path, "w") as f:
             f.write(src)
-        exe = os.path.join(ctx.work, "probe%d" % p)
+        exe = os.path.join(ctx.work, "probe%d-%d" % (p, os.getpid()))
         cdir = os.path.join(ctx.work, "probe-cache-%d-%d" % (p, os.getpid()))
         rc, o, e = vlib.nelua(["--cache-dir", cdir, "--print-code", path], timeout=600)
         ccode = o
@@ -659,6 +673,12 @@ def probe_programs(ctx, rng, info, model, viol, nontrivial, dist, reader_witness
         shutil.rmtree(cdir, ignore_errors=True)
         if rc2 == 0:
             rc2, o2, e2 = vlib.sh([exe], timeout=120)
+        for junk in (exe, path):
+            try:
+                if rc == 0 and rc2 == 0:
+                    os.remove(junk)
+            except OSError:
+                pass
         if rc != 0 or rc2 != 0:
             viol("probe-program-%d" % p, "probe program with in-range literals does not compile: %s" % (e + e2)[-400:],
                  {"program": path, "stderr": (e + e2)[-1500:]})
